@@ -1390,6 +1390,14 @@ func (ctx Ctx) funcLit(e *ast.FuncLit) coq.FuncLit {
 
 	fl.Args = ctx.paramList(e.Type.Params)
 	// fl.ReturnType = ctx.returnType(d.Type.Results)
+	if e.Type.Results != nil {
+		for _, r := range e.Type.Results.List {
+			if len(r.Names) > 0 {
+				// (a bare return would have to return their values)
+				ctx.unsupported(r, "named returned value")
+			}
+		}
+	}
 	fl.Body = ctx.blockStmt(e.Body, ExprValReturned)
 	return fl
 }
